@@ -293,7 +293,7 @@ class Unit:
         return header, body
 
     def lift_closure(self, file, path, prefix, name, sig, spec="", subs=None, rules_=DEFAULT_FN_RULES, wrap=None, props=None,
-                     attrs="", post_subs=None, nth=None, of=None, block=False, fn_kw="fn", brace_at=None, loops=None):
+                     attrs="", post_subs=None, nth=None, of=None, block=False, fn_kw="fn", brace_at=None, loops=None, proof_at_start=""):
         """R-closure: the closure literal starting with `prefix` inside fn `path` is lifted to a function `name` with signature
         `sig` (its parameters followed by its captured variables); the closure BODY text is copied unchanged.
         block=True (R-block): `prefix` is a token run ending with the `{` of a block expression (e.g. `s.spawn::<()>(async {`); the
@@ -336,6 +336,10 @@ class Unit:
         if loops:
             body = self._weave_loops(body, loops, fired)
         body = self._apply_subs(body, post_subs, fired)
+        if proof_at_start:
+            k0 = body.index("{")
+            body = body[:k0 + 1] + " " + proof_at_start.strip() + " " + body[k0 + 1:]
+            fired.append(("W-ghost", 1))
         spec_txt = spec.strip("\n")
         pieces = []
         if wrap:
